@@ -229,40 +229,48 @@ def num_close(m: MNum, y, slack: float = 64.0) -> bool:
 
 def tree_matches(t, e, flags: bool = False, why: list | None = None) -> bool:
     """structural comparison of a model tree with a real expression; numeric leaves/parameters
-    compared as numbers"""
+    compared as numbers (iterative: trees can be hundreds of levels deep)"""
     def fail(msg):
         if why is not None:
             why.append(msg)
         return False
-    c = cls(e)
-    if HEAD.get(c) != t[0]:
-        return fail(f"class {c} vs {t[0]}")
-    if flags:
-        f = ("r" if e._is_fully_reduced else "") + ("f" if e._evaluation_failed else "")
-        if f != t[1]:
-            return fail(f"flags {f!r} vs {t[1]!r} at {c}")
-    h = t[0]
-    if h == "C":
-        return num_close(t[2], e.value) or fail(f"constant {e.value!r} vs {t[2]}")
-    if h == "V":
-        return t[2] == e.name or fail(f"name {e.name} vs {t[2]}")
-    if h in ("A", "M"):
-        if len(t[2]) != len(e._inners):
-            return fail(f"arity {len(e._inners)} vs {len(t[2])} at {c}")
-        return all(tree_matches(a, b, flags, why) for a, b in zip(t[2], e._inners))
-    if h in ("S", "D", "P"):
-        return tree_matches(t[2], e._left, flags, why) and tree_matches(t[3], e._right, flags, why)
-    if h in ("N", "R", "CO", "SI"):
-        return tree_matches(t[2], e._inner, flags, why)
-    if h in ("NP", "NR"):
-        if t[2] != e._parameter:
-            return fail(f"n {e._parameter} vs {t[2]}")
-        return tree_matches(t[3], e._inner, flags, why)
-    if h in ("E", "L"):
-        if not num_close(t[2], e._parameter):
-            return fail(f"base {e._parameter} vs {t[2]}")
-        return tree_matches(t[3], e._inner, flags, why)
-    return fail("unknown head")
+    stack = [(t, e)]
+    while stack:
+        t, e = stack.pop()
+        c = cls(e)
+        if HEAD.get(c) != t[0]:
+            return fail(f"class {c} vs {t[0]}")
+        if flags:
+            f = ("r" if e._is_fully_reduced else "") + ("f" if e._evaluation_failed else "")
+            if f != t[1]:
+                return fail(f"flags {f!r} vs {t[1]!r} at {c}")
+        h = t[0]
+        if h == "C":
+            if not num_close(t[2], e.value):
+                return fail(f"constant {e.value!r} vs {t[2]}")
+        elif h == "V":
+            if t[2] != e.name:
+                return fail(f"name {e.name} vs {t[2]}")
+        elif h in ("A", "M"):
+            if len(t[2]) != len(e._inners):
+                return fail(f"arity {len(e._inners)} vs {len(t[2])} at {c}")
+            stack.extend(reversed(list(zip(t[2], e._inners))))
+        elif h in ("S", "D", "P"):
+            stack.append((t[3], e._right))
+            stack.append((t[2], e._left))
+        elif h in ("N", "R", "CO", "SI"):
+            stack.append((t[2], e._inner))
+        elif h in ("NP", "NR"):
+            if t[2] != e._parameter:
+                return fail(f"n {e._parameter} vs {t[2]}")
+            stack.append((t[3], e._inner))
+        elif h in ("E", "L"):
+            if not num_close(t[2], e._parameter):
+                return fail(f"base {e._parameter} vs {t[2]}")
+            stack.append((t[3], e._inner))
+        else:
+            return fail("unknown head")
+    return True
 
 
 def build(t):
